@@ -3,7 +3,7 @@ deltas (`when`) for enum / boolean cells whose cases differ between the two side
 from . import domain as D
 from .domain import Lin
 from .state import State
-from .values import BOT, Arr, Bot, BoxU, Delta, Enum, Fn, FnPtr, Iter, Opaque, Ref, Scalar, Seq, Struct, Val, val_syms
+from .values import BOT, Arr, Bot, BoxU, Delta, Enum, Fn, FnPtr, FnSet, Iter, Opaque, Ref, Scalar, Seq, Struct, Val, val_syms
 
 
 INTERP = None  # set by the interpreter: gives the joiner read access through references
@@ -137,6 +137,13 @@ class Joiner:
             return Ref(("multi", tuple(uniq)), (), a.mut and b.mut)
         if ta is Fn and tb is Fn and a.desc.get("def") == b.desc.get("def") and a.desc.get("args") == b.desc.get("args"):
             return a
+        if ta in (Fn, FnSet) and tb in (Fn, FnSet):
+            # two different known functions: the pointer is one of them
+            fns = []
+            for x in (a.fns if ta is FnSet else (a,)) + (b.fns if tb is FnSet else (b,)):
+                if not any(x.desc.get("def") == y.desc.get("def") and x.desc.get("args") == y.desc.get("args") for y in fns):
+                    fns.append(x)
+            return FnSet(fns) if len(fns) <= 8 else Opaque()
         if ta is FnPtr and tb is FnPtr:
             if a.target is b.target:
                 return a
